@@ -61,6 +61,28 @@ def fam_jac(seed, n):
     return out
 
 
+def fam_jac_diamond():
+    """algebraic intermediates that form a diamond inside one differential equation: r is used directly and through z,
+    which itself depends on r (in several naming orders: the symbolic expansion follows the names)"""
+    out = []
+    for names in (('r', 'z'), ('z', 'r'), ('m', 'q')):
+        for f1 in ('sigmoid', 'tanh'):
+            fp = FP()
+            n1, n2 = names
+            e1 = X.call(f1, X.mul(V('g'), X.sub(V('v'), V('th'))))
+            e2 = X.add(X.mul(V(n1), V(n1)), X.mul(V('c'), V('u')))
+            e_v = X.add(X.add(X.div(X.neg(V('v')), V('tau')), V(n1)), V(n2))
+            e_u = X.add(X.add(X.neg(V('u')), X.call('sin', V('v'))), X.mul(V('h'), V(n2)))
+            op = OpSpec('dm', [(n1, 'alg', e1), (n2, 'alg', e2), ('v', 'de', e_v), ('u', 'de', e_u)],
+                        {n1: ('alg', F(0)), n2: ('alg', F(0)), 'v': ('state', fp()), 'u': ('state', fp()),
+                         'g': ('const', fp()), 'th': ('const', fp()), 'tau': ('const', fp()), 'c': ('const', fp()),
+                         'h': ('const', fp())}, output='v')
+            ops = {'dm': op}
+            nodes = {'p': NodeSpec(['dm'], {})}
+            out.append((f"FJ:diamond:{n1}{n2}:{f1}", ModelSpec('m', ops, nodes, [], note="diamond of algebraic variables")))
+    return out
+
+
 def jac_job(job):
     spec = job['spec']
     out = dict(violations=[], inconclusive=[], obligations=[], src='', jsrc='')
@@ -219,6 +241,42 @@ def jac_job(job):
                 remaining.remove(match)
                 tally.obligations += ny * ny
                 tally.unsat += ny * ny
+    # sparse=True changes only the container: the k-th history matrix of the sparse result is the k-th one of the dense
+    # result (the list carries no delay labels, position is all a caller has)
+    if job.get('sparse') and len(Jh) > 1:
+        try:
+            c_dense = tv.compile_template(build_python(spec), vectorize=False, step_size=float(DT), kind='jac',
+                                          sparse=False, fname='jfd', **skw)
+            symx.Ctx.cur = symx.Ctx()
+            b3 = tv.Binding({**syms.table, **in_table})
+            dargs = tv.bind_args(c_dense, b3, y, t, hist=hist_plain)
+            df_, _ = tv.load_python(c_dense, b3)
+            Jd = df_(*dargs)
+            symx.Ctx.cur = None
+            Jhd = [unwrap(m) for m in Jd[1]] if isinstance(Jd, tuple) else []
+            if len(Jhd) != len(Jh):
+                out['violations'].append(dict(kind='history-matrices', what=f"sparse=True returns {len(Jh)} history "
+                                              f"matrices, sparse=False {len(Jhd)}"))
+            else:
+                for k_, (ms, md) in enumerate(zip(Jh, Jhd)):
+                    for i in range(ny):
+                        for j in range(ny):
+                            v, model = decide.prove_equal(ms[i, j], md[i, j], pc=pc, tally=tally)
+                            out['obligations'].append(dict(entry=f"sparse J_hist #{k_}[{i},{j}] == dense", verdict=v))
+                            if v == 'sat' and decide.numeric_disagreement(ms[i, j], md[i, j], model, pc=pc) is not None:
+                                tally.sat_confirmed += 1
+                                out['violations'].append(dict(kind='history-matrix-order', what=f"history matrix #{k_} of "
+                                                              f"the sparse Jacobian differs from history matrix #{k_} "
+                                                              f"of the dense one at [{i},{j}] (sparse: "
+                                                              f"{str(z3.simplify(symx.lift(ms[i, j])))[:80]}, dense: "
+                                                              f"{str(z3.simplify(symx.lift(md[i, j])))[:80]})"))
+                                break
+                        else:
+                            continue
+                        break
+        except (tv.CompileError, symx.Unsupported) as e:
+            symx.Ctx.cur = None
+            out['inconclusive'].append(dict(kind='engine', what=f"dense twin of the sparse DDE Jacobian: {e}"))
     out['tally'] = tally.as_dict()
     return out
 
@@ -281,6 +339,8 @@ def run(tier='quick', seed=0, only=None, verbose=False):
         jobs.append(dict(key=f"{k}|euler", spec=s, solver='euler'))
         if hash(k) % 3 == 0 or tier == 'thorough':
             jobs.append(dict(key=f"{k}|sparse", spec=s, solver='euler', sparse=True))
+    for k, s in fam_jac_diamond():
+        jobs.append(dict(key=f"{k}|euler", spec=s, solver='euler'))
     for pi_, (k, s) in enumerate(progs[:4 if tier == 'quick' else 40]):
         for solver in ('euler', 'heun', 'scipy'):
             jobs.append(dict(key=f"{k}|{solver}|input", spec=s, solver=solver, inputs=['q/o1/u', 'p/nl/r_in'][pi_ % 2]))
@@ -290,6 +350,7 @@ def run(tier='quick', seed=0, only=None, verbose=False):
             jobs.append(dict(key=f"{k}|default-solver", spec=s, solver='default'))
         if di % 4 == 1 or tier == 'thorough':
             jobs.append(dict(key=f"{k}|heun", spec=s, solver='heun'))
+        jobs.append(dict(key=f"{k}|scipy|sparse", spec=s, solver='scipy', sparse=True))
         if tier == 'thorough':
             jobs.append(dict(key=f"{k}|euler", spec=s, solver='euler'))
     if only:
